@@ -694,9 +694,16 @@ def r4_progress(a, tier):
     )
     fn = a.p.func(f'{CTX}.repeat')
     ext = a.extents.of(fn)   # repeat() and the private helpers that exist only for it
+
+    def snorm(f, e):
+        """norm(e) with the context read as `self`: in a module-level helper of the extent the context is its first parameter"""
+        t = norm(e)
+        if f is not None and f.cls is None and f.params and t.startswith(f.params[0] + '.'):
+            t = 'self.' + t[len(f.params[0]) + 1:]
+        return t
     saved: set[str] = set()
     for _f, n in a.extents.walk(fn):
-        if isinstance(n, ast.Assign) and norm(n.value) == 'self.pos' and isinstance(n.targets[0], ast.Name):
+        if isinstance(n, ast.Assign) and snorm(_f, n.value) == 'self.pos' and isinstance(n.targets[0], ast.Name):
             saved.add(n.targets[0].id)
 
     def origin(f, e):
@@ -704,7 +711,7 @@ def r4_progress(a, tier):
 
     class Sem(Semantics):
         def call(self, ex, f, node, state):
-            nm = dotted(node.func)
+            nm = snorm(f, node.func)
             if ex.in_extent(f) and nm in ('self.isolate', 'self._isolate') and node.args and origin(f, node.args[0]) == fn.params[1]:
                 state = frozenset((state - {'checked'}) | {'iterated'})
             if nm.split('.')[-1] == 'OptionSucceeded' and 'iterated' in state and 'checked' not in state:
@@ -713,11 +720,11 @@ def r4_progress(a, tier):
 
         def test(self, ex, f, test, state):
             if ex.in_extent(f) and isinstance(test, ast.Compare) and len(test.ops) == 1 and isinstance(test.ops[0], (ast.Eq, ast.LtE)):
-                l, r = norm(test.left), norm(test.comparators[0])
+                l, r = snorm(f, test.left), snorm(f, test.comparators[0])
                 if {l, r} & {'self.pos'} and ({l, r} - {'self.pos'}) <= saved and ({l, r} - {'self.pos'}):
                     return [frozenset(state | {'no_progress'})], [frozenset(state | {'checked'})]
             if ex.in_extent(f) and isinstance(test, ast.Compare) and len(test.ops) == 1 and isinstance(test.ops[0], (ast.NotEq, ast.Gt)):
-                l, r = norm(test.left), norm(test.comparators[0])
+                l, r = snorm(f, test.left), snorm(f, test.comparators[0])
                 if {l, r} & {'self.pos'} and ({l, r} - {'self.pos'}) <= saved and ({l, r} - {'self.pos'}):
                     return [frozenset(state | {'checked'})], [frozenset(state | {'no_progress'})]
             return [state], [state]
@@ -739,7 +746,7 @@ def r4_progress(a, tier):
     cmp_vars = set()
     for _f, n in a.extents.walk(fn):
         if isinstance(n, ast.Compare) and len(n.ops) == 1:
-            l, r = norm(n.left), norm(n.comparators[0])
+            l, r = snorm(_f, n.left), snorm(_f, n.comparators[0])
             if 'self.pos' in (l, r):
                 cmp_vars |= ({l, r} - {'self.pos'}) & saved
 
@@ -750,7 +757,8 @@ def r4_progress(a, tier):
         if f is not fn:
             for g in ext:
                 for lp in [n for n in walk_no_defs(g.node) if isinstance(n, (ast.While, ast.For))]:
-                    if any(isinstance(x, ast.Call) and isinstance(x.func, ast.Attribute) and x.func.attr == f.name for x in ast.walk(lp)):
+                    if any(isinstance(x, ast.Call) and ((isinstance(x.func, ast.Attribute) and x.func.attr == f.name) or (isinstance(x.func, ast.Name) and x.func.id == f.name))
+                           for x in ast.walk(lp)):
                         scopes.append(f.node)
         return scopes
     for v in sorted(cmp_vars):
@@ -758,7 +766,7 @@ def r4_progress(a, tier):
         for f in ext:
             scopes = per_iteration_scopes(f)
             binds = [n for sc in scopes for n in ast.walk(sc) if isinstance(n, ast.Assign) and isinstance(n.targets[0], ast.Name)
-                     and n.targets[0].id == v and norm(n.value) == 'self.pos']
+                     and n.targets[0].id == v and snorm(f, n.value) == 'self.pos']
             if not binds:
                 continue
             evals = [n for sc in scopes for n in ast.walk(sc) if isinstance(n, ast.Call) and (
@@ -777,7 +785,7 @@ def r4_progress(a, tier):
     raises_on_equal = False
     for _f, n in a.extents.walk(fn):
         if isinstance(n, ast.If) and isinstance(n.test, ast.Compare):
-            l, r = norm(n.test.left), norm(n.test.comparators[0])
+            l, r = snorm(_f, n.test.left), snorm(_f, n.test.comparators[0])
             if 'self.pos' in (l, r) and ({l, r} - {'self.pos'}) <= saved:
                 branch = n.body if isinstance(n.test.ops[0], (ast.Eq, ast.LtE)) else n.orelse
                 raises_on_equal = any(isinstance(x, ast.Raise) for s_ in branch for x in ast.walk(s_))
